@@ -166,3 +166,34 @@ package templ
 //@   requires ch != nil && r != nil
 //@   modifies tr(w), doc(w), failedDuring, *cv()
 //@   ensures len(tr(w)) >= len(old(tr(w))) + 1 && tr(w)[len(old(tr(w)))] == evSet("Content-Type", ch.ContentType)
+
+// ---------------------------------------------------------------------------
+// C01: interpolated strings never change HTML structure. Specification
+// languages in /verif/contracts/lang/html.lang (HTML tokenizer facts).
+//@ lemma html_text_safe(x) [C01]: inL(x, HTML_ESCAPED) ==> inL(x, TEXT_SAFE) by reglang
+//@ lemma html_attr_safe(x) [C01]: inL(x, HTML_ESCAPED) ==> inL(x, DQ_ATTR_SAFE) by reglang
+
+// ---------------------------------------------------------------------------
+// C03: script template calls placed in on* attributes. The function name is
+// validated (or replaced), every argument is JSON-encoded (or a JSExpression,
+// which is trusted by design) and then HTML-escaped: the whole value cannot
+// end the attribute.
+//@ lemma dq_step(x, y) [C03]: inL(x, DQ_ATTR_SAFE) && inL(y, HTML_ESCAPED) ==> inL(cat(x, y), DQ_ATTR_SAFE) by reglang
+//@ lemma dq_open(x) [C03]: inL(x, DQ_ATTR_SAFE) ==> inL(cat(x, "("), DQ_ATTR_SAFE) by reglang
+//@ lemma dq_comma(x) [C03]: inL(x, DQ_ATTR_SAFE) ==> inL(cat(x, ","), DQ_ATTR_SAFE) by reglang
+//@ lemma dq_close(x) [C03]: inL(x, DQ_ATTR_SAFE) ==> inL(cat(x, ")"), DQ_ATTR_SAFE) by reglang
+
+//@ func SafeScript [C03]
+//@   ensures inL(result, DQ_ATTR_SAFE)
+//@   use before sb.WriteString#1: dq_step("", arg0)
+//@   use before sb.WriteRune#1: dq_open(sb.String())
+//@   loop 1 invariant inL(sb.String(), DQ_ATTR_SAFE)
+//@   use before sb.WriteString#2: dq_step(sb.String(), arg0)
+//@   use before sb.WriteRune#2: dq_comma(sb.String())
+//@   use before sb.WriteRune#3: dq_close(sb.String())
+
+//@ func JSFuncCall [C03]
+//@   ensures inL(result.Call, DQ_ATTR_SAFE)
+//@ func JSUnsafeFuncCall [C03]
+//@   ensures inL(result.Call, DQ_ATTR_SAFE)
+//@   use return.1: html_attr_safe(html.EscapeString(string(js)))
